@@ -1,6 +1,30 @@
-(* Properties/C16.v — error positions.  Statements only. *)
-From Verif Require Import Base.Str Model.Token Model.Listener.
+(* Properties/C16.v — reported error positions lie inside the input and on the offending text.
+   Statements only; proofs in Proofs/LexerPositions.v.
+   PARTIAL.  Proved: every token of the lexer model carries the position of its first character, its text
+   stands at that position, the position lies inside the text; a listener-raised error carries exactly the
+   position of the name token it is raised for; a cleaned line is a prefix of the input line (the pre-pass
+   moves nothing).  Not proved: positions of ANTLR's own syntax-error messages (the runtime's error
+   strategy is not modelled; assumed to be token starts, EOF or characters of the cleaned text) and the
+   positions of merge conflicts — those are refuted by known finding K-C16-lines (whole-file prefix
+   look-up) and checked on every run against the generator's bookkeeping. *)
+From Verif Require Import Base.Str Model.Token Model.Lexer Model.Listener Proofs.LexerPositions.
 
-(* a listener-raised error carries exactly the position of the token it is raised for *)
+(* 1. every token (hidden-channel ones included): text found at its recorded position *)
+Theorem C16_token_positions : forall s ts es, lex_all s = (ts, es) -> Forall (placed s 1 0) ts.
+Proof. exact lex_all_placed. Qed.
+Theorem C16_parser_tokens : forall s ts es, lex s = (ts, es) -> Forall (placed s 1 0) ts.
+Proof. exact lex_placed. Qed.
+
+(* 2. hence its line is one of the lines of the text and its column is within the text *)
+Theorem C16_token_bounds : forall s t, placed s 1 0 t -> (1 <= tline t <= 1 + count_nl s)%nat /\ (tcol t <= length s)%nat.
+Proof. exact token_line_in_text. Qed.
+
+(* 3. a listener-raised error (duplicate relation / condition / parameter, misplaced or repeated `extend`) carries
+      the zero-based line and the column of the name token it is raised for *)
 Theorem C16_error_at_token : forall t m, er_line (err_at t m) = pred (tline t) /\ er_col (err_at t m) = tcol t.
 Proof. intros; split; reflexivity. Qed.
+
+(* 4. the comment-stripping pre-pass only shortens lines: what remains of a line is a prefix of it, so the
+      columns of the remaining characters are those of the input *)
+Theorem C16_prepass_keeps_columns : forall line, exists rest, line = clean_line line ++ rest.
+Proof. exact clean_line_prefix. Qed.
